@@ -274,3 +274,8 @@ CORPUS += [
     V("C04", "mtvrp-checker-limit-unsqueezed-broadcast", R + "mtvrp/env.py", 'curr_length <= td["distance_limit"].squeeze(-1)', 'curr_length <= td["distance_limit"]', "C04.a"),
     V("C04", "eq-mtvrp-checker-limit-indexed", R + "mtvrp/env.py", 'curr_length <= td["distance_limit"].squeeze(-1)', 'curr_length <= td["distance_limit"][:, 0]', None),
 ]
+
+CORPUS += [
+    V("C06", "mtvrp-checker-limit-unsqueezed-broadcast", R + "mtvrp/env.py", 'curr_length <= td["distance_limit"].squeeze(-1)', 'curr_length <= td["distance_limit"]', "C06.f"),
+    V("C06", "cvrptw-row0-deadline-again", R + "cvrptw/env.py", '<= td["time_windows"][..., 0, 1, None]', '<= td["time_windows"][..., 0, 1][0]', "C06.f"),
+]
